@@ -22,7 +22,7 @@ RULE = ("caption sets of 1-6 cues per language with strictly increasing starts, 
         'Chains may run with one pooled reader and writer object per format. ')
 ASSUMPTIONS = [
     "hops use pycaption's own writer and reader of the format with default options",
-    "a cue lying wholly inside MicroDVD frame 0 ({0}{0}) is outside the domain (durations >= 40 ms)",
+    "a cue lying wholly inside MicroDVD frame 0 ({0}{0}) is outside the domain (durations >= 40 ms); one leg uses a first cue shorter than a frame inside frame 1 (also with a bare number as text) and leaves SAMI out of its chains, because a cue without length at MicroDVD resolution has no SAMI spelling",
     "texts avoid '<html' / 'no closed captioning available' (SAMIReader rejects by design)",
 ]
 
